@@ -48,7 +48,24 @@ def flag_selects(ev, v, mr, state_terms):
     return False
 
 
+def components(chk, prog):
+    """masked_iterate* are compositions  step.mask().dimap(..).scan()...: their inert-step behaviour rests on the Mask, Dimap and Scan obligations"""
+    from ..gfi import mask_dimap, scan
+    from ..gfi.common import Obs
+
+    obs = Obs()
+    mask_dimap.analyse(obs, prog)
+    scan.analyse(obs, prog)
+    n = 0
+    for o in obs.items:
+        if o["props"] & {"C12", "C14", "C15", "C16"}:
+            n += 1
+            chk.require(o["ok"], o["rule"], o["instance"], o["construct"], derived=o["derived"], expected=o["expected"], where=o["where"])
+    chk.floor("component obligations (Mask, Dimap, Scan)", n, 120)
+
+
 def run(chk, prog):
+    components(chk, prog)
     for name, final in (("masked_iterate_final", True), ("masked_iterate", False)):
         m, fn = prog.func(name, MOD)
         ev = Evaluator(prog)
